@@ -2008,6 +2008,185 @@ def translate_fs(repo, exp):
 
 
 
+AUTH_WANTED = ["BasicAuthMiddleware::verify", "BasicAuthMiddleware::process"]
+
+
+class AuthFn(Fn):
+    """`BasicAuthMiddleware::process` / `verify` over the vocabulary of `Qhttp/Model/AxPrim.lean`: the middleware's
+    map and realm and the request's headers are the environment `ae`, a QString is its UTF-8 encoding (the round
+    trip through QString is `ae.round`), what happens on the socket is a list of actions."""
+    def __init__(self, ctx, key):
+        Fn.__init__(self, ctx, key)
+        self.state_ty = "List Ax.Act"
+        self.env_sig = "(ae : Ax.Env) "
+        self.uses_env = True
+        self.params = [p for p in self.params if not p[2].startswith("?")]          # Socket *socket
+        if key.endswith("::verify"):
+            self.const = True
+
+    def member(self, n):
+        n = strip(n)
+        if n.get("kind") == "MemberExpr" and kids(n):
+            base = strip(kids(n)[0])
+            if base.get("kind") == "MemberExpr" and base.get("name") == "d" and kids(base) and strip(kids(base)[0]).get("kind") == "CXXThisExpr":
+                return n["name"]
+        return None
+
+    def obj_path(self, n):
+        m = self.member(n)
+        if m in ("map", "realm"):
+            return m
+        n0 = strip(n)
+        if n0.get("kind") == "CXXThisExpr":
+            return "this"
+        if n0.get("kind") == "DeclRefExpr" and n0.get("referencedDecl", {}).get("name") == "socket":
+            return "socket"
+        if n0.get("kind") == "CXXMemberCallExpr" and strip(kids(n0)[0]).get("name") == "headers" and \
+                self.obj_path(kids(strip(kids(n0)[0]))[0]) == "socket":
+            return "headers"
+        if n0.get("kind") == "DeclRefExpr" and n0.get("referencedDecl", {}).get("kind") in ("VarDecl", "ParmVarDecl"):
+            return ("local", n0["referencedDecl"]["name"])
+        return None
+
+    def effectful(self, n):
+        n0 = strip(n)
+        if n0.get("kind") == "CXXMemberCallExpr":
+            callee = strip(kids(n0)[0])
+            if callee.get("kind") == "MemberExpr" and kids(callee):
+                if self.obj_path(kids(callee)[0]) == "socket" and callee.get("name") != "headers":
+                    return True
+        return any(self.effectful(c) for c in kids(n0))
+
+    def ex(self, n, env):
+        n0 = strip(n)
+        if n0.get("kind") == "MemberExpr" and self.member(n0) == "realm":
+            return [], "ae.realm", "bytes"
+        if n0.get("kind") == "CXXOperatorCallExpr":
+            ks = kids(n0)
+            opn = strip(ks[0]).get("referencedDecl", {}).get("name", "")
+            if opn in ("operator==", "operator!=") and len(ks) == 3 and ("IByteArray" in qt(ks[1]) or "IByteArray" in qt(ks[2])
+                                                                      or "IByteArray" in qt(strip(ks[0]))):
+                pa, ca, ta = self.ex(ks[1], env)
+                pb, cb, tb = self.ex(ks[2], env)
+                if ta == tb == "bytes":
+                    c = "(Ax.ieq %s %s)" % (ca, cb)
+                    return pa + pb, c if opn == "operator==" else "(!%s)" % c, "bool"
+        return Fn.ex(self, n, env)
+
+    def call_member(self, n, env, want_value):
+        ks = kids(n)
+        callee = strip(ks[0])
+        if callee.get("kind") == "MemberExpr" and kids(callee):
+            objn = kids(callee)[0]
+            obj = self.obj_path(objn)
+            nm = callee["name"]
+            real = [x for x in ks[1:] if x.get("kind") != "CXXDefaultArgExpr"]
+            if obj == "headers" and nm == "value" and len(real) == 1:
+                pre, a = self.args(real, env)
+                if a[0][1] == "bytes":
+                    return pre, "(HeaderMap.value %s ae.hdrs)" % a[0][0], "bytes"
+            if obj == "map":
+                pre, a = self.args(real, env)
+                if nm == "contains" and [t for _, t in a] == ["bytes"]:
+                    return pre, "(Ax.mapContains ae.table %s)" % a[0][0], "bool"
+                if nm == "value" and [t for _, t in a] == ["bytes"]:
+                    return pre, "(Ax.mapValue ae.table %s)" % a[0][0], "bytes"
+                raise Untranslatable("map.%s" % nm)
+            if obj == "socket":
+                pre, a = self.args(real, env)
+                tys = [t for _, t in a]
+                if nm == "setHeader" and tys == ["bytes", "bytes"]:
+                    return pre + ["let s := Ax.setHeader s %s %s" % (a[0][0], a[1][0])], "()", "void"
+                if nm == "writeError" and tys == ["int"]:
+                    return pre + ["let s := Ax.err s %s" % a[0][0]], "()", "void"
+                raise Untranslatable("socket->%s in the middleware" % nm)
+            if obj == "this" and nm == "verify":
+                info = self.ctx.need("BasicAuthMiddleware::verify")
+                pre, a = self.args(real, env)
+                if [t for _, t in a] == ["bytes", "bytes"]:
+                    return pre, "(%s ae s %s %s)" % (info["name"], a[0][0], a[1][0]), "bool"
+            # value methods of QByteArray / QString
+            if obj not in ("socket", "headers", "map", "this"):
+                pre0, oc, ot = self.ex(objn, env)
+                if ot == "bytes":
+                    if nm == "split" and len(real) == 1 and strip(real[0]).get("kind") == "CharacterLiteral":
+                        return pre0, "(Qhttp.splitChar %d %s)" % (int(strip(real[0])["value"]), oc), "blist"
+                    if nm in ("toUtf8",) and not real:
+                        return pre0, oc, "bytes"
+                    if nm == "arg" and len(real) == 1:
+                        pre, a = self.args(real, env)
+                        if a[0][1] == "bytes":
+                            return pre0 + pre, "(Ax.arg1 %s %s)" % (oc, a[0][0]), "bytes"
+        return Fn.call_member(self, n, env, want_value)
+
+    def call_free(self, n, env, want_value):
+        ks = kids(n)
+        fn = strip(ks[0])
+        nm = fn.get("referencedDecl", {}).get("name")
+        real = [x for x in ks[1:] if x.get("kind") != "CXXDefaultArgExpr"]
+        if nm == "fromBase64" and len(real) == 1:
+            p, c, t = self.ex(real[0], env)
+            if t == "bytes":
+                return p, "(BasicAuth.fromBase64 %s)" % c, "bytes"
+        if nm == "fromUtf8" and len(real) == 1:
+            p, c, t = self.ex(real[0], env)
+            if t == "bytes":
+                return p, "(ae.round %s)" % c, "bytes"
+        if nm == "split" and len(real) == 4 and fn.get("referencedDecl", {}).get("kind") == "CXXMethodDecl":
+            pre, a = self.args(real[:3], env)
+            a3 = strip(real[3])
+            vn = a3.get("referencedDecl", {}).get("name")
+            if [t for _, t in a] == ["bytes", "bytes", "int"] and a3.get("kind") == "DeclRefExpr" and vn in env and env[vn][1] == "blist":
+                return pre + ["let %s := Ax.parserSplit %s %s %s %s" % (env[vn][0], a[0][0], a[1][0], a[2][0], env[vn][0])], "()", "void"
+        return Fn.call_free(self, n, env, want_value)
+
+
+def translate_auth(repo, exp):
+    QSTR_AS_BYTES[0] = True
+    try:
+        docs = clang_ast(repo, "basicauthmiddleware.cpp", "QHttpEngine::BasicAuthMiddleware", exp)
+        decls = {}
+        by_id = {}
+        def index(n, cls=None):
+            if n.get("kind") == "CXXRecordDecl" and n.get("name"):
+                cls = n["name"]
+            if n.get("kind") == "CXXMethodDecl" and "id" in n and cls:
+                by_id[n["id"]] = cls
+            for ch in n.get("inner", []) or []:
+                index(ch, cls)
+        for d in docs:
+            index(d)
+        for d in docs:
+            if d.get("kind") == "CXXMethodDecl" and body_of(d) is not None:
+                cls = by_id.get(d.get("previousDecl"))
+                if cls:
+                    decls[cls + "::" + d["name"]] = d
+        sdocs = clang_ast(repo, "basicauthmiddleware.cpp", "QHttpEngine::Socket", exp)
+        senums = enum_values(sdocs, "Socket")
+        ctx = Ctx(decls, senums, "")
+        ctx.fetch = lambda name: clang_ast(repo, "basicauthmiddleware.cpp", name, exp)
+        ctx.fn_class = AuthFn
+        done, failed = [], []
+        for key in AUTH_WANTED:
+            try:
+                ctx.need(key)
+            except Untranslatable as e:
+                failed.append("%s (%s)" % (key, e))
+        out = ["-- GENERATED on every run by tools/cxx2lean_qt.py from src/src/basicauthmiddleware.cpp — do not edit.",
+               "import Qhttp.Model.AxPrim", "set_option linter.unusedVariables false", "", "namespace QhttpGen.Auth", "open Qhttp", ""]
+        for key in ctx.order:
+            out.append(ctx.code[key]); done.append(key)
+        helpers = [ctx.done[k]["name"] for k in ctx.order if k not in AUTH_WANTED]
+        out.append("end QhttpGen.Auth\n")
+        if helpers:
+            out.append("macro \"unfold_auth_helpers\" : tactic => `(tactic| try simp only [%s] at *)\n" % ", ".join("QhttpGen.Auth." + h for h in helpers))
+        else:
+            out.append("macro \"unfold_auth_helpers\" : tactic => `(tactic| skip)\n")
+        return "\n".join(out), done, failed
+    finally:
+        QSTR_AS_BYTES[0] = False
+
+
 PARSER_WANTED = ["Parser::split", "Parser::parseHeaderList", "Parser::parseHeaders", "Parser::parseRequestHeaders", "Parser::parseResponseHeaders"]
 
 # what a function that could not be translated is replaced by: the model's function in the translated signature
@@ -2122,6 +2301,11 @@ if __name__ == "__main__":
     import sys
     if len(sys.argv) > 2 and sys.argv[2] == "fs":
         text, done, failed = translate_fs(sys.argv[1], "/repo/_build/src")
+        print(text)
+        print("-- done:", done, "\n-- failed:", failed, file=sys.stderr)
+        sys.exit(0)
+    if len(sys.argv) > 2 and sys.argv[2] == "auth":
+        text, done, failed = translate_auth(sys.argv[1], "/repo/_build/src")
         print(text)
         print("-- done:", done, "\n-- failed:", failed, file=sys.stderr)
         sys.exit(0)
